@@ -19,7 +19,8 @@ def run(ctx):
            evkeys=("op", "M", "detail"))
     n = 48 if ctx.quick else 1600
     shards = core.NCPU
-    gen = ctx.run_impl("c11", [dict(id=k, mode="gen", seed=ctx.seed * 1009 + k, n=max(1, n // shards)) for k in range(shards)], nproc=shards)
+    gen = ctx.run_impl("c11", [dict(id=k, mode="gen", seed=ctx.seed * 1009 + k, n=max(1, n // shards)) for k in range(shards)], nproc=shards,
+                       timeout_s=3000 if ctx.quick else 9000, env=dict(VERIF_CASE_TIMEOUT=900 if ctx.quick else 3000))
     cases = []
     for k in range(shards):
         if gen[k].get("st") in ("crashed", "timeout"):
